@@ -24,7 +24,7 @@ Fixpoint JV (v : val) : J :=
   | VDate u => JL [JS "d"; JZ u]
   | VTuple l => JL [JS "t"; JL (map JV l)]
   | VList l => JL [JS "l"; JL (map JV l)]
-  | VDict items => JL [JS "m"; JL (map (fun kv => let '(k, x) := kv in JL [JS (NS k); JV x]) items)]
+  | VDict items => JL [JS "m"; JL (map (fun kv => let '(k, x) := kv in JL [JV k; JV x]) items)]
   end.
 Definition JT (t : table) : J := JL (map (fun cv => JL [JS (NS (fst cv)); JL (map JV (snd cv))]) t).
 
